@@ -53,6 +53,8 @@ def snap(x, depth=0):
                 tuple(str(k) for k in x.keys()))
     if isinstance(x, (list, tuple)):
         return ("L", type(x).__name__, tuple(snap(v, depth + 1) for v in x))
+    if type(x).__name__ == "FilterSet" and hasattr(x, "__iter__"):
+        return ("FS", tuple(snap(tuple(f), depth + 1) for f in x))
     if isinstance(x, (dt.datetime, dt.date)):
         return ("T", x.isoformat(), str(getattr(x, "precision", None)), str(getattr(x, "precision_constraint", None)))
     if isinstance(x, float) and x != x:
@@ -305,6 +307,27 @@ def wl_sequence(ctx, rng, i):
             G.call("store:FileSystemStore.query", lambda: fs.query([stix2.Filter("type", "=", t)]))
             fs2 = stix2.FileSystemStore(tempfile.mkdtemp(dir=tmp), allow_custom=True)
             G.call("store:FileSystemStore.add(list)", lambda: fs2.add(lst), data=lst)
+            # the caller's query objects (a list of filters, a FilterSet, one filter) asked of sources which have filters of their own
+            # attached, alone and behind a composite, several times over
+            from stix2.datastore.filters import FilterSet
+            own = stix2.Filter("created", ">", "1970-01-01T00:00:00Z")
+            for src in (mem.source, fs.source):
+                src.filters.add(own)
+            cds = stix2.CompositeDataSource()
+            cds.add_data_sources([mem.source, fs.source])
+            cds.filters.add(stix2.Filter("id", "!=", "identity--00000000-0000-4000-8000-000000000000"))
+            qlist = [stix2.Filter("type", "=", t), stix2.Filter("id", "=", d["id"])]
+            qset = FilterSet(list(qlist))
+            qone = stix2.Filter("type", "=", t)
+            for label, target in (("MemorySource", mem.source), ("FileSystemSource", fs.source), ("CompositeDataSource", cds), ("Environment", stix2.Environment(source=cds))):
+                for qname, q in (("list", qlist), ("FilterSet", qset), ("Filter", qone)):
+                    G.call("store:%s.query(%s)" % (label, qname), lambda: target.query(q), query=q)
+                    G.call("store:%s.query(%s)-again" % (label, qname), lambda: target.query(q), query=q)
+                if hasattr(target, "related_to") and "created_by_ref" in d:
+                    G.call("store:%s.related_to(filters=FilterSet)" % label, lambda: target.related_to(d["id"], filters=qset), query=qset)
+                    G.call("store:%s.relationships" % label, lambda: target.relationships(d["id"]))
+            G.watch("source's own filters", mem.source.filters)
+            G.call("store:MemorySource.query-after", lambda: mem.source.query([qone]), query=[qone])
             # factory
             if t == "identity" and ver == "2.1":
                 defaults = {"external_references": [{"source_name": "f", "external_id": "1"}], "object_marking_refs": [M.TLP["green"]]}
